@@ -49,7 +49,7 @@ type ProvSpec struct {
 }
 type Item struct {
 	Key  string
-	Form int // 0 plain (no precomputed data), 1 decoded+preprocessed, 2 plain then explicit Preprocess*, 3 via ldbuilders, 4 decoded, re-encoded by the library, decoded again
+	Form int // 0 plain (no precomputed data), 1 decoded+preprocessed, 2 plain then explicit Preprocess* (every third time: a preprocessed earlier version edited into this one, then Preprocess* again), 3 via ldbuilders, 4 decoded, re-encoded by the library, decoded again
 	Doc  *J
 }
 type EvalCase struct {
@@ -329,6 +329,11 @@ func makeFlag(it Item) (*ldmodel.FeatureFlag, error) {
 		g := plainFlag(f)
 		return &g, nil
 	case 2:
+		if len(it.Doc.Text())%3 == 0 { // every third time: a preprocessed earlier version, edited into this one, preprocessed again
+			if g, ok := editedFlag(it.Doc, f); ok {
+				return &g, nil
+			}
+		}
 		g := plainFlag(f)
 		ldmodel.PreprocessFlag(&g)
 		return &g, nil
@@ -371,6 +376,11 @@ func makeSegment(it Item) (*ldmodel.Segment, error) {
 		g := plainSegment(s)
 		return &g, nil
 	case 2:
+		if len(it.Doc.Text())%3 == 0 {
+			if g, ok := editedSegment(it.Doc, s); ok {
+				return &g, nil
+			}
+		}
 		g := plainSegment(s)
 		ldmodel.PreprocessSegment(&g)
 		return &g, nil
